@@ -1,8 +1,18 @@
 package main
 
 import (
+	"os"
+
 	"verifharness/corr"
 	"verifharness/dom/peer"
 )
 
-func main() { corr.Main("peer", peer.Run) }
+func main() {
+	// scenarios run in child processes of the same binary: a crash of the library under test is
+	// attributed to the scenario that was running and the run goes on
+	if len(os.Args) > 1 && os.Args[1] == "-peerchild" {
+		peer.ChildMain()
+		return
+	}
+	corr.Main("peer", peer.Run)
+}
